@@ -214,12 +214,65 @@ func genRelated(t *rapid.T, a []byte, letters []byte) gen.B {
 	return gen.B(b)
 }
 
+// MatMutation changes one score of the matrix IN PLACE between two calls on the same map
+// (a caller may adjust a matrix it already used): Which = "pair" (Letters[I],Letters[J]),
+// "del" (Letters[I],Gap) or "ins" (Gap,Letters[I]); the score changes by Delta.
+type MatMutation struct {
+	Which string `json:"which"`
+	I     int    `json:"i"`
+	J     int    `json:"j"`
+	Delta int    `json:"delta"`
+}
+
 // AlignCase is the case type of C08, C09 and C10.
 type AlignCase struct {
-	A     gen.B   `json:"a"`
-	B     gen.B   `json:"b"`
-	M     MatSpec `json:"m"`
-	Local bool    `json:"local"`
+	A      gen.B        `json:"a"`
+	B      gen.B        `json:"b"`
+	M      MatSpec      `json:"m"`
+	Local  bool         `json:"local"`
+	Mutate *MatMutation `json:"mutate,omitempty"`
+}
+
+func genMatMutation(t *rapid.T, s MatSpec) *MatMutation {
+	if s.Named != "" || len(s.Letters) == 0 || rapid.IntRange(0, 2).Draw(t, "mutate") != 0 {
+		return nil
+	}
+	n := len(s.Letters)
+	mu := &MatMutation{Which: rapid.SampledFrom([]string{"pair", "pair", "del", "ins"}).Draw(t, "which"),
+		I: rapid.IntRange(0, n-1).Draw(t, "mi"), J: rapid.IntRange(0, n-1).Draw(t, "mj")}
+	if mu.Which == "pair" {
+		mu.Delta = rapid.SampledFrom([]int{-5, -3, -1, 1, 2, 4}).Draw(t, "delta")
+	} else {
+		mu.Delta = rapid.IntRange(-3, -1).Draw(t, "delta") // gap scores stay non-positive
+	}
+	return mu
+}
+
+// applyMutation changes the implementation's matrix and the reference copy in place.
+func applyMutation(c AlignCase, m align.SubstitutionMatrix, rm ref.Matrix) bool {
+	mu := c.Mutate
+	if mu == nil || c.M.Named != "" || len(c.M.Letters) == 0 {
+		return false
+	}
+	n := len(c.M.Letters)
+	i, j := ((mu.I%n)+n)%n, ((mu.J%n)+n)%n
+	var k [2]byte
+	switch mu.Which {
+	case "pair":
+		k = [2]byte{c.M.Letters[i], c.M.Letters[j]}
+	case "del":
+		k = [2]byte{c.M.Letters[i], 255}
+	case "ins":
+		k = [2]byte{255, c.M.Letters[i]}
+	default:
+		return false
+	}
+	if mu.Which != "pair" && mu.Delta > 0 {
+		return false
+	}
+	m[k] += float64(mu.Delta)
+	rm[k] += float64(mu.Delta)
+	return true
 }
 
 type alignResult struct {
